@@ -3,6 +3,8 @@
     src/io_uring/io.rs ([close_file_fd], [close_direct_fd], [CloseOp]), src/io/mod.rs
     ([AsyncFd::close], the standard-stream wrappers) and the [map_ok] of every operation that
     produces a descriptor (open, socket, accept, multishot accept, pipe, the two conversions),
+    the synchronous pipe2(2) fallback of the pipe operation (src/io_uring/pipe.rs,
+    [PipeOp::fallback]: taken when the kernel answers IORING_OP_PIPE with EINVAL, Linux < 6.16),
     together with the part of the operation life cycle of src/io_uring/op.rs that decides what
     happens to a descriptor carried by a completion ([Shared::update], [poll_inner],
     [State::drop]).
@@ -95,9 +97,15 @@ Definition cop_pair (c : cop) : bool := match c with CPipe _ => true | _ => fals
 
 (** A completion for a creator: the descriptor numbers it carries (through [res], or written
     through [sqe.addr] for pipe and to_direct_descriptor) or an error; IORING_CQE_F_MORE. *)
-Inductive result := RFds (fds : list N) | RErr (e : Z).
+Inductive result :=
+  | RFds (fds : list N)
+  | RErr (e : Z)
+  (* [-EINVAL] for IORING_OP_PIPE. The completion carries no descriptor; [fds] is the
+     environment's answer to the pipe2(2) call that [PipeOp::fallback] makes if and when the
+     future takes this result (ghost until then: nothing is open because of it). *)
+  | RInval (fds : list N).
 Definition cqe : Type := (result * bool)%type.
-Definition cqe_fds (c : cqe) : list N := match fst c with RFds fds => fds | RErr _ => [] end.
+Definition cqe_fds (c : cqe) : list N := match fst c with RFds fds => fds | RErr _ | RInval _ => [] end.
 Definition cqes_fds (cs : list cqe) : list N := flat_map cqe_fds cs.
 
 (** [Status] of op.rs. [ODropped]: the future was dropped while the operation was running;
@@ -303,16 +311,42 @@ Definition new_op (s : st) (c : cop) : st :=
   | None => s
   end.
 
-(** The future takes result [c] (already removed from the state in [o']). *)
-Definition deliver (s : st) (i : nat) (o' : op) (c : cqe) : st * list Z :=
+(** One or two descriptors the kernel (or the process, for pipe2) may hand out together. *)
+Definition all_fresh (s : st) (ds : list desc) : bool :=
+  match ds with
+  | [d] => fresh s d
+  | [d1; d2] => fresh s d1 && fresh s d2 && negb (desc_eqb d1 d2)
+  | _ => false
+  end.
+
+(** [PipeOp::fallback] wraps the two descriptors of pipe2(2) with [fd::Kind::File], whatever
+    kind the builder asked for ("the returned fds are regular file descriptors, even if
+    [Pipe::kind] was used to request direct descriptors", src/pipe.rs). *)
+Definition pipe_fallback_kind (requested : kind) : kind := Regular.
+(** The variant that passes the requested kind on to [map_ok] (seeded change C07-c); kept for
+    the refutation lemma. *)
+Definition pipe_fallback_kind_requested (requested : kind) : kind := requested.
+
+(** The future takes result [c] (already removed from the state in [o']).
+    [RInval]: the error arm of [poll_inner] calls [PipeOp::fallback], which — inside this poll,
+    never earlier and not at all if the future is gone — calls pipe2(2). pipe2 creates two
+    descriptors in the PROCESS descriptor table (kind [Regular], numbers chosen by the
+    environment) or fails; numbers that the process could not be given at this moment stand for
+    a failing call (EMFILE). [fbk] says which kind the two numbers are wrapped with. *)
+Definition deliver_with (fbk : kind -> kind) (s : st) (i : nat) (o' : op) (c : cqe) : st * list Z :=
   let s1 := set_op s i o' in
   match fst c with
   | RFds fds => hand_out s1 (o_kind o') fds
   | RErr e => (s1, [12; (- e)]%Z)
+  | RInval fds =>
+      let ds := pair_kind Regular fds in
+      if all_fresh s1 ds then hand_out (issue s1 ds) (fbk (o_kind o')) fds
+      else (s1, [12; (-24)]%Z)
   end.
+Definition deliver := deliver_with pipe_fallback_kind.
 
 (** [poll_inner] for a creator. *)
-Definition poll_op (s : st) (i : nat) : st * list Z :=
+Definition poll_op_with (fbk : kind -> kind) (s : st) (i : nat) : st * list Z :=
   match nth_error (ops s) i with
   | None => (s, [])
   | Some o =>
@@ -323,20 +357,21 @@ Definition poll_op (s : st) (i : nat) : st * list Z :=
       | ORunning =>
           if cop_multi (o_cop o) then
             match o_res o with
-            | c :: rest => deliver s i (with_res o rest) c
+            | c :: rest => deliver_with fbk s i (with_res o rest) c
             | [] => (s, [10%Z])
             end
           else (s, [10%Z])
       | ODone =>
           match o_res o with
           | c :: rest =>
-              deliver s i (with_ost (with_res o rest) (if cop_multi (o_cop o) then ODone else OComplete)) c
+              deliver_with fbk s i (with_ost (with_res o rest) (if cop_multi (o_cop o) then ODone else OComplete)) c
           | [] => (set_op s i (with_ost o OComplete), [if cop_multi (o_cop o) then 13%Z else 99%Z])
           end
       | OComplete => (s, [99%Z])      (* "polled Future after completion" *)
       | ODropped | OGone => (s, [])   (* no future to poll *)
       end
   end.
+Definition poll_op := poll_op_with pipe_fallback_kind.
 
 (** [State::drop]: whatever results the state still holds go with it — the descriptors in
     them are never wrapped, so nothing closes them. *)
@@ -356,13 +391,6 @@ Definition drop_op (s : st) (i : nat) : st :=
   end.
 
 (** The kernel completes creator [i] with descriptors of the kind the request asked for. *)
-Definition all_fresh (s : st) (ds : list desc) : bool :=
-  match ds with
-  | [d] => fresh s d
-  | [d1; d2] => fresh s d1 && fresh s d2 && negb (desc_eqb d1 d2)
-  | _ => false
-  end.
-
 Definition kcomplete (s : st) (i : nat) (fd fd2 : N) (more : bool) : st :=
   match nth_error (ops s) i with
   | None => s
@@ -377,8 +405,10 @@ Definition kcomplete (s : st) (i : nat) (fd fd2 : N) (more : bool) : st :=
       else s
   end.
 
-(** Errors that a10 neither retries (EINTR, ECANCELED) nor answers with a synchronous
-    fallback (EINVAL for pipe). *)
+(** Errors that a10 hands to the caller as they are: not EINTR / ECANCELED (restarted: C09) and
+    not EINVAL (the kernel does not know the opcode: for pipe see [kpipe_inval] below; for the
+    other creators a10 reports [ErrorKind::Unsupported] — an error without a descriptor like
+    any other, not generated). *)
 Definition plain_errno (e : Z) : bool :=
   (0 <? e)%Z && (e <? 4096)%Z && negb (e =? 4)%Z && negb (e =? 125)%Z && negb (e =? 22)%Z.
 
@@ -388,6 +418,18 @@ Definition kfail (s : st) (i : nat) (e : Z) : st :=
   | Some o =>
       if o_kin o && plain_errno e then
         set_op s i (with_kin (with_posted o (o_posted o ++ [(RErr e, false)])) false)
+      else s
+  end.
+
+(** The kernel answers the pipe request of operation [i] with EINVAL (IORING_OP_PIPE is
+    unknown before Linux 6.16). Nothing is created: [fd], [fd2] are recorded as what pipe2(2)
+    will answer if [PipeOp::fallback] gets to run (see [deliver_with]). *)
+Definition kpipe_inval (s : st) (i : nat) (fd fd2 : N) : st :=
+  match nth_error (ops s) i with
+  | None => s
+  | Some o =>
+      if o_kin o && cop_pair (o_cop o) then
+        set_op s i (with_kin (with_posted o (o_posted o ++ [(RInval [fd; fd2], false)])) false)
       else s
   end.
 
@@ -548,27 +590,33 @@ Inductive event :=
   | DropOp (i : nat)
   | KComplete (i : nat) (fd fd2 : N) (more : bool)
   | KFail (i : nat) (e : Z)
+  | KPipeInval (i : nat) (fd fd2 : N)
   | RingPoll
   | DropFd (h : nat)
   | CloseFd (h : nat)
   | PollClose (c : nat)
   | DropClose (c : nat).
 
-Definition step (s : st) (e : event) : st * list Z :=
+Definition step_with (fbk : kind -> kind) (s : st) (e : event) : st * list Z :=
   match e with
   | Adopt fd => (adopt s fd, [])
   | StdStream n => (std_stream s n, [])
   | NewOp c => (new_op s c, [])
-  | PollOp i => poll_op s i
+  | PollOp i => poll_op_with fbk s i
   | DropOp i => (drop_op s i, [])
   | KComplete i fd fd2 more => (kcomplete s i fd fd2 more, [])
   | KFail i e => (kfail s i e, [])
+  | KPipeInval i fd fd2 => (kpipe_inval s i fd fd2, [])
   | RingPoll => ring_poll s
   | DropFd h => drop_fd s h
   | CloseFd h => (close_fd s h, [])
   | PollClose c => poll_close s c
   | DropClose c => (drop_close s c, [])
   end.
+(** The code as it is. *)
+Definition step := step_with pipe_fallback_kind.
+(** The fallback wrapping its descriptors with the requested kind (not the code; refuted). *)
+Definition step_requested_kind := step_with pipe_fallback_kind_requested.
 
 (** * Who holds an open descriptor *)
 
